@@ -129,8 +129,8 @@ class Ctx:
             self.deferred.append(e)
             self.note("rule %s could not be analysed: %s" % (getattr(rule_fn, "__name__", rule_fn), str(e)[:300]))
             return None
-        except Exception as e:  # noqa: BLE001 - a rule that depends on the result of a deferred one
-            if not self.deferred:
+        except Exception as e:  # noqa: BLE001 - a rule that depends on the result of a deferred one, or of one that stopped at a violation
+            if not self.deferred and not self.violations:
                 raise
             self.deferred.append(AnalysisError("%s failed after an earlier rule could not be analysed: %s: %s" % (getattr(rule_fn, "__name__", rule_fn), type(e).__name__, e)))
             return None
